@@ -147,6 +147,13 @@ func c15Gen(rt *rapid.T) wProg {
 				p.Ops = append(p.Ops, wOp{K: "fault", N: gInt(rt, 1, 3, "fka")}, wOp{K: "note", S: b, T: tb, A: "call", B: "accept", M: 1},
 					wOp{K: "note", S: b, T: tb, A: "call", B: gPick(rt, []string{"offer", "ice-candidate"}, "early"), M: 1, H: map[string]any{"sdp": "early"}})
 			}
+			if gPct(rt, 8) {
+				// the caller's connection stops reading while the callee writes: its queue is full (or nearly)
+				// when the acceptance is published (the overflow itself - the server dropping the caller in the middle
+				// of accepting the call - is generated in C13, which judges survival, not the call's life cycle)
+				p.Ops = append(p.Ops, wOp{K: "sub", S: b, T: tb}, wOp{K: "pause", S: a}, wOp{K: "flood", S: b, T: tb, N: gPick(rt, []int{120, 140, 150}, "prefill")},
+					wOp{K: "note", S: b, T: tb, A: "call", B: "accept", M: 1}, wOp{K: "resume", S: a}, wOp{K: "sub", S: a, T: ta})
+			}
 			p.Ops = append(p.Ops, wOp{K: "note", S: b, T: tb, A: "call", B: "accept", M: 1})
 			maybeNoise(e)
 			for k, nx := 0, gInt(rt, 0, 4, "nx"); k < nx; k++ {
@@ -473,6 +480,13 @@ func (o *c15Obs) After(w *wWorld, st *wStep) *kit.Viol {
 					}
 				}
 				for _, k := range want {
+					var ks int
+					fmt.Sscanf(k, "%d:", &ks)
+					if ks >= 0 && ks < len(w.sess) && w.sess[ks] != nil && w.sess[ks].pause.Load() {
+						// (what a connection which does not read was sent is not seen in this step)
+						delete(got, k)
+						continue
+					}
 					if got[k] != 1 {
 						return kit.V("event-not-relayed:"+ev, "{note call %s} by session %d on %s: want exactly one {info} at %s, sessions got %v", ev, st.Sess, route, k, got)
 					}
